@@ -256,6 +256,9 @@ def stepD (st : DSt) (fs : List String) : DSt × String :=
       let tok := wrapFirst path ttl
       (some { st := initW true 1 [], cleanup := [], chain := some tok }, showInfo tok.handed)
     | none => (st, "bad-op")
+  | ["lastwrap", _n] =>
+    -- a lease-generating final use is answered with the "one use left" error whether or not wrapping was asked for
+    (st, "refused|wrapped:0|secret:0")
   | ["rootlast", n] =>
     -- the deferred revocation after the last use does not depend on the token's lease having an expiry: revoked, and
     -- with it the n-1 leases issued under it
